@@ -1825,6 +1825,28 @@ impl<'a> Evaluator<'a> {
                             return Ok(Val::List(items.chunks(n).filter(|c| name == "chunks" || c.len() == n).map(|c| Val::List(c.to_vec())).collect()));
                         }
                         "is_empty" => return Ok(Val::Bool(items.is_empty())),
+                        // slice::binary_search as std implements it — on a slice that is not sorted the answer is whatever this
+                        // procedure arrives at, which is what the analysed code gets
+                        "binary_search" if mc.args.len() == 1 => {
+                            let target = self.eval(&mc.args[0], env)?;
+                            let cmp = |x: &Val| cmp_vals(x, &target).ok_or_else(|| format!("binary_search: cannot compare {} with {}", x.show(), target.show()));
+                            let res = |ok: bool, i: usize| Val::Ctor(if ok { "Ok" } else { "Err" }.into(), vec![Val::int(i as i128)], BTreeMap::new());
+                            let mut size = items.len();
+                            if size == 0 {
+                                return Ok(res(false, 0));
+                            }
+                            let mut base = 0usize;
+                            while size > 1 {
+                                let half = size / 2;
+                                let mid = base + half;
+                                if cmp(&items[mid])? != std::cmp::Ordering::Greater {
+                                    base = mid;
+                                }
+                                size -= half;
+                            }
+                            let c = cmp(&items[base])?;
+                            return Ok(if c == std::cmp::Ordering::Equal { res(true, base) } else { res(false, base + (c == std::cmp::Ordering::Less) as usize) });
+                        }
                         "first" | "peek" => return Ok(items.first().cloned().map(Val::some).unwrap_or(Val::none())),
                         "get" if mc.args.len() == 1 => {
                             if let Ok(Val::Int { v, .. }) = self.eval(&mc.args[0], env) {
